@@ -8,7 +8,7 @@
 //! ops: ["register",w,cores,max,run0] ["deregister",w] ["heartbeat",w,n|null] ["advance",d] ["sweep"]
 //!      ["set_status",w,st] ["deploy",spec,[outs]] ["teardown",g] ["manual_migrate",p,g,t,ok]
 //!      ["failover",w,[outs]] ["drain",w,[outs]] ["rebalance",[outs]]
-use crate::{pname, pord_of, reanchor, set_script, state_of, wname, wnum, word_of, PORT, RT, UNIT_MS};
+use crate::{pname, pord_of, settle, set_script, state_of, wname, wnum, word_of, PORT, RT, UNIT_MS};
 use serde_json::{json, Value as J};
 use std::collections::HashMap;
 use std::sync::Arc;
@@ -43,6 +43,7 @@ pub fn run_coord_api(req: &J) -> J {
     let mut gids: Vec<String> = Vec::new();
     let mut gidx: HashMap<String, usize> = HashMap::new();
     let mut steps = Vec::new();
+    let mut anchor = std::time::Instant::now();
 
     let call = |method: &str, path: String, body: Option<J>| -> (u16, J) {
         rt.block_on(async {
@@ -61,7 +62,8 @@ pub fn run_coord_api(req: &J) -> J {
         let name = o[0].as_str().unwrap();
         let n = |k: usize| o[k].as_u64().unwrap();
         let (word, pord) = rt.block_on(async {
-            let c = shared.read().await;
+            let mut c = shared.write().await;
+            settle(&mut c, &mut anchor);
             (word_of(&c), pord_of(&c, &gidx))
         });
         let gid_of = |g: u64| gids.get(g as usize).cloned().unwrap_or_else(|| format!("no-such-group-{}", g));
@@ -205,7 +207,7 @@ pub fn run_coord_api(req: &J) -> J {
         };
         let state = rt.block_on(async {
             let mut c = shared.write().await;
-            reanchor(&mut c);
+            settle(&mut c, &mut anchor);
             state_of(&c, &gidx)
         });
         steps.push(json!({"word": word, "pord": pord, "res": res, "hb_n": hb_n, "state": state}));
